@@ -182,7 +182,7 @@ class PhonopyAtoms:
             cell, positions=positions, scaled_positions=scaled_positions
         )
 
-        self._symbols = symbols
+        self._symbols = None if symbols is None else list(symbols)
 
         self._numbers_with_shifts = None
         if numbers is not None:
